@@ -11,9 +11,21 @@ def L():
     return impl.lib()
 
 
+_REUSED = {}      # one long-lived Stabilizer object per register size, re-used by assigning its public attributes R, S, phases
+
+
 def stab_from_codes(n, codes, fmt="matrices"):
     import numpy as np
     lib = L()
+    if fmt == "reused":
+        # a caller that keeps ONE Stabilizer object and overwrites its generators (tests/random_stabilizer.py does exactly this)
+        R, S, ph = impl.matrices_of_codes(codes, n)
+        st = _REUSED.get(n)
+        if st is None:
+            st = _REUSED[n] = lib.stabilizer.Stabilizer((R, S, ph))
+        else:
+            st.R, st.S, st.phases = R, S, ph
+        return st
     if fmt == "matrices":
         R, S, ph = impl.matrices_of_codes(codes, n)
         return lib.stabilizer.Stabilizer((R, S, ph))
@@ -36,10 +48,10 @@ def exc_name(e):
 
 def classify(job):
     """job = (n, codes) -> {"id": int | None, "reid": int | None, "exc": str | None}"""
-    n, codes = job
+    n, codes = job[0], job[1]
     lib = L()
     try:
-        st = stab_from_codes(n, codes)
+        st = stab_from_codes(n, codes, "reused" if (len(job) > 2 and job[2]) else "matrices")
         cid = int(lib.lc_classes.determine_lc_class(st).id())
     except Exception as e:
         return {"id": None, "reid": None, "exc": exc_name(e)}
@@ -68,6 +80,17 @@ def build_input(job):
     if fmt == "circuit":
         return lib.stabilizer.Stabilizer(impl.circuit_from_gates(n, job["program"]))
     return stab_from_codes(n, codes, fmt)
+
+
+def hostile(obj):
+    """A hostile (but legitimate) caller: after the harness has projected a returned object it scribbles over everything reachable from it
+    (lists, dicts, circuits incl. metadata, arrays).  If the library handed out something it still uses, later calls go wrong and are
+    caught by the ordinary postconditions."""
+    from . import history
+    try:
+        history.mutate(obj, L())
+    except Exception:
+        pass
 
 
 _RECENT = []      # (circuit object, its gates when it was returned, description) of the last calls in this worker process
@@ -113,7 +136,8 @@ def api_call(job):
         out["gates"] = impl.gates_of(qc)
         out["nq"] = qc.num_qubits
         _check_recent(out)
-        _RECENT.append((qc, out["gates"], f"{api} n={n} conn={conn} codes={job.get('codes')} fmt={job.get('fmt')}"))
+        hostile(qc)                  # the caller now edits the circuit it was given ...
+        _RECENT.append((qc, impl.gates_of(qc), f"{api} n={n} conn={conn} codes={job.get('codes')} fmt={job.get('fmt')}"))     # ... and nobody else may touch it afterwards
         del _RECENT[:-40]
     except Exception as e:
         out["exc"] = exc_name(e)
@@ -167,6 +191,7 @@ def mub_family(job):
             except Exception as e:
                 ro.append([["!" + exc_name(e), -1, -1]])
         out["readouts"] = ro
+        hostile(mubs); hostile(circs); hostile(info)
     except Exception as e:
         out["exc"] = exc_name(e) + ": " + str(e)[:200]
     return out
@@ -212,6 +237,7 @@ def meas_circuits(job):
         out.append({"kind": "meas", "n": N, "m": m, "list": list(lst) if lst is not None else list(range(N)), "conn": conn,
                     "preplen": len(before), "prep": before, "gates": gates, "measures": measures, "ro": ro,
                     "metaok": meta_ok, "unchanged": unchanged, "nq": qc.num_qubits, "what": job["what"], "index": i, "exc": ""})
+    hostile(circs)
     return out
 
 
@@ -225,7 +251,7 @@ def _mat(a):
 def f2_calls(job):
     """job = (rows (list of lists of 0/1), dtype name) -> one `f2` record."""
     import numpy as np
-    rows, dt = job
+    rows, dt = job[0], job[1]
     lib = L()
     f2 = lib.f2_algebra
     A = np.array(rows, dtype=getattr(np, dt))
@@ -245,7 +271,17 @@ def f2_calls(job):
     except Exception as e:
         rec["exc"] = exc_name(e) + ": " + str(e)[:200]
     rec["unchanged"] = 1 if (A.shape == before.shape and (A == before).all() and A.dtype == before.dtype) else 0
+    if job_probe(job):
+        # the same numbers as a matrix of the transposed SHAPE (not the transpose), evaluated right after: a different matrix
+        B = [list(r) for r in zip(*[iter([x for row in rows for x in row])] * m)] if False else None
+        flat = [x for row in rows for x in row]
+        Brows = [flat[i * m:(i + 1) * m] for i in range(n)]
+        return [rec, f2_calls((Brows, dt, False))]
     return rec
+
+
+def job_probe(job):
+    return len(job) < 3 or job[2]
 
 
 # ---------------------------------------------------------------------------------------------
@@ -491,7 +527,9 @@ def tomo_phase_a(job):
     try:
         per_comp = []
         for k in range(len(job["comps"])):
-            per_comp.append([impl.split_measure(impl.gates_of(qc))[0] for qc in _tomo_build(job, k)])
+            built = _tomo_build(job, k)
+            per_comp.append([impl.split_measure(impl.gates_of(qc))[0] for qc in built])
+            hostile(built)
         ncirc = len(per_comp[0])
         out["circuits"] = [[per_comp[k][i] for k in range(len(per_comp))] for i in range(ncirc)]
     except Exception as e:
@@ -527,6 +565,9 @@ def tomo_phase_b(job):
             fitter = T.StabilizerMeasurementFitter(res, circs[0])
         ev = fitter.expectation_values(full_hilbert_space=full)
         out["values"] = _entries(ev)
+        # the same fitter object asked again with the other flag (and then the first flag once more)
+        out["values_other"] = _entries(fitter.expectation_values(full_hilbert_space=not full))
+        out["values_again"] = _entries(fitter.expectation_values(full_hilbert_space=full))
         for i, qc in enumerate(circs):
             f = T.StabilizerMeasurementFitter(FakeResult(counts), qc, result_index=i) if len(counts) > 1 else T.StabilizerMeasurementFitter(FakeResult(counts[0]), qc)
             out["per_circuit"].append(_entries(f.expectation_values(full_hilbert_space=full)))
